@@ -3,8 +3,17 @@
 KERNEL = "Lean 4.33.0 kernel (lake build); axioms propext, Classical.choice, Quot.sound only (audited per theorem by lean/Audit.lean)"
 TIE = "hand-written Lean model tied to the Go code by the correspondence run (harness/ + Driver/) and by facts regenerated from the source (extract/ -> Gen/)"
 
+NOT_CLAIMED = {}
+
 PROPS = {
     "C20": {
+        "level_text": "FULL for the connection code: unbounded theorems (window, forward/backward walks visit every element once in order, "
+                      "truthful flags, end cursors, total, negative sizes rejected, foreign cursors ignored) about a model of NameCon; the "
+                      "seven genny instances are shown to be the template by a regenerated obligation; model = code is validated "
+                      "exhaustively on small inputs and randomly on larger ones",
+        "level_note": "Trusted: Lean kernel, the extractor, the harness/comparer. Assumed: edge makers use OffsetToCursor(offset) (true of all "
+                      "call sites), the cursor encoder is injective (validated, not proved), the source list does not change between the "
+                      "requests of one walk (the resolvers recompute it per request from map-ordered data: outside the connection code).",
         "required_theorems": ["page_window", "page_inside_cursors", "walk_forward", "walk_backward", "hasNext_truthful",
                               "hasPrev_truthful", "cursors_are_ends", "total_is_length", "negative_first_rejected",
                               "negative_last_rejected", "foreign_after_ignored", "foreign_before_ignored"],
@@ -21,6 +30,11 @@ PROPS = {
         "gen_facts": ["Gen.Conn: each gen_*.go body equals connection_template.go up to the genny type names"],
     },
     "C13": {
+        "level_text": "FULL: unbounded theorems for prefix resolution (found / multiple with exactly the matching ids / not found), for the "
+                      "interleaving (every prefix of a combined id splits into a prefix of each part, for every mask; the source's masks "
+                      "are regenerated and shown equal to the model's) and for comment resolution (unique match is returned, never another)",
+        "level_note": "Trusted: Lean kernel, extractor, harness. Ids are ASCII strings (Id.Validate); no collision-freeness is assumed. Cache "
+                      "populations only share short prefixes; long shared prefixes are covered by the theorems and the id-level slice.",
         "required_theorems": ["resolve_spec", "resolve_found_iff", "resolve_multiple_iff", "resolve_notFound_iff", "resolve_full_id",
                               "combine_split", "combine_split_gen", "combine_length", "combine_total", "mask_counts",
                               "resolveComment_unique", "resolveComment_never_other", "resolveComment_notFound",
@@ -37,5 +51,32 @@ PROPS = {
         "assumptions": ["ids are ASCII (hexadecimal), as Id.Validate enforces; for other prefixes SeparateIds' byte-offset behaviour is modelled and compared, but no theorem speaks about it",
                         "engineered shared prefixes longer than what birthday collisions give are covered by the theorems (all populations) and by the id-level slice, not by cache populations"],
         "gen_facts": ["Gen.Interleave.combineMask/separateMask = model mask on 0..63; idLength = 64"],
+    },
+    "C10": {
+        "level_text": "FULL on the operation semantics: unbounded theorems for title/status (last writer), labels (strictly sorted set; "
+                      "additions then removals), comments (one per create/add-comment; an edit rewrites exactly the targeted comment; unknown, "
+                      "non-comment and wrong-target edits are no-ops), actors/participants (no duplicates), timeline (one entry per state-"
+                      "changing operation, full edit history), immutable extra metadata, and incremental = from-scratch compilation",
+        "level_note": "Trusted: Lean kernel, harness/comparer. The model is hand-written and validated against Bug.Compile and the cache's "
+                      "incremental snapshot on generated sequences. Two defects found by this check were repaired in /repo (see known_findings.json).",
+        "required_theorems": ["compile_append", "compile_append_list", "title_spec", "status_spec", "labels_sorted_nodup", "labels_spec",
+                              "step_labels_other", "comments_count", "edit_unknown_noop", "edit_noncomment_noop", "edit_wrong_target_noop",
+                              "editComments_spec", "editComments_keeps", "actors_participants_nodup", "timeline_spec",
+                              "CItem_append_history", "metadata_immutable", "setMetadata_only_extra", "noop_changes_nothing"],
+        "slices": ["C10"],
+        "rule": "random operation sequences (length 0..25 quick / 0..120 thorough) built from the operation constructors over all 8 kinds, "
+                "incl. edits of valid / unknown / non-comment / 14-character-colliding targets, label changes with duplicates and absent "
+                "removals, metadata on known and unknown targets; plus sessions through the BugCache API whose incrementally maintained "
+                "snapshot is compared with the model and with a from-scratch compile; non-trivial = at least one operation after the "
+                "create; distinct = distinct operation lists (ids are random, so all differ)",
+        "trusted_base": [KERNEL, TIE,
+                         "model: GitBugModel.Bug (apply, step, compile) for entities/bug/op_*.go, Bug.Compile, cache/with_snapshot.go",
+                         "operation and identity ids are environment-provided strings; entity.CombineIds is a parameter of the theorems and "
+                         "instantiated with the Ids model in the driver",
+                         "sort.Slice on labels is assumed to sort (model: insertion sort with the same comparator; results compared)"],
+        "assumptions": ["operations are those the format can carry; validation of field contents (Validate) is C04/C07's subject",
+                        "compile_repeatable (a second Compile over the same operation objects gives the same snapshot) is checked by the "
+                        "correspondence run (`again`), not yet proved"],
+        "gen_facts": [],
     },
 }
